@@ -56,6 +56,9 @@ CONSTANTS
                         \* TRUE : proposed fix -- a link is stored only when the served previous
                         \*        certificate hashes to its id, and a downloaded certificate must
                         \*        hash to its id before a cache hit on it
+    FetchedHashChecked, \* FALSE: mithril-client as coded -- the certificate fetched for the cached previous
+                        \*        hash of a skipped certificate is not compared with the hash asked for
+                        \* TRUE : proposed fix -- it must carry the hash that was asked for
     MaxAlter,           \* 1 or 2: field alterations per tampered certificate
     TamperFields,       \* subset of AllTamperFields used for tampering
     MsgModes,           \* subset of {"k", "d", "r"}: how a protocol-message change treats the signed message
